@@ -103,15 +103,18 @@ def real_objects(space, kind):
     return out
 
 
-def fixed_state(sx, space, objs, H, W):
+def fixed_state(sx, space, objs, H, W, cell_positions=None):
     """a state of the space: Floor-like background, one distinguished symbolic cell, symbolic pose and held item.
     On large alphabets the product (cell content x pose x held item) is split into three slices that each vary one factor."""
     bg = next(f for lab, f in objs if lab == 'Floor')
     cells = [o for o in objs if o[0] not in ('NoneGridObject', 'Hidden')]
     helds = [o for o in objs if o[0] != 'Hidden']
-    vary = sx.choice('vary', ['all'] if len(objs) <= 8 else ['cell', 'pose', 'held'])
-    cy = int(sx.int('cy', 0, H - 1))
-    cx = int(sx.int('cx', 0, W - 1))
+    vary = sx.choice('vary', ['all'] if (len(objs) <= 8 and cell_positions is None) else ['cell', 'pose', 'held'])
+    if cell_positions is None:
+        cy = int(sx.int('cy', 0, H - 1))
+        cx = int(sx.int('cx', 0, W - 1))
+    else:
+        cy, cx = sx.choice('cpos', cell_positions)
     cell = sx.choice('cell', cells if vary in ('all', 'cell') else cells[-1:])
     rows = [[bg() for _ in range(W)] for _ in range(H)]
     rows[cy][cx] = cell[1]()
@@ -126,14 +129,17 @@ def fixed_state(sx, space, objs, H, W):
     return State(Grid(rows), Agent(Position(ay, ax), o, None if isinstance(h, NoneGridObject) else h)), (cy, cx)
 
 
-def fixed_observation(sx, space, objs):
+def fixed_observation(sx, space, objs, cell_positions=None):
     H, W = space.grid_shape.height, space.grid_shape.width
     bg = next(f for lab, f in objs if lab == 'Floor')
     cells = [o for o in objs if o[0] != 'NoneGridObject']
     helds = [o for o in objs if o[0] != 'Hidden']
-    vary = sx.choice('vary', ['all'] if len(objs) <= 8 else ['cell', 'held'])
-    cy = int(sx.int('cy', 0, H - 1))
-    cx = int(sx.int('cx', 0, W - 1))
+    vary = sx.choice('vary', ['all'] if (len(objs) <= 8 and cell_positions is None) else ['cell', 'held'])
+    if cell_positions is None:
+        cy = int(sx.int('cy', 0, H - 1))
+        cx = int(sx.int('cx', 0, W - 1))
+    else:
+        cy, cx = sx.choice('cpos', cell_positions)
     cell = sx.choice('cell', cells if vary in ('all', 'cell') else cells[-1:])
     rows = [[bg() for _ in range(W)] for _ in range(H)]
     rows[cy][cx] = cell[1]()
